@@ -519,7 +519,8 @@ def check_index(program, rep):
     must be filed in the index entry the table holds (C01's rule for stale
     references to rows / owner sets)."""
     from rules import c01
-    rep.borrow(c01.analyse_writers, program, rep, {'add_component'},
+    rep.borrow(c01.analyse_writers, program, rep,
+               {'add_component', 'create_entity'},
                keep=lambda o: o.rule == 'C01.atomic',
                rename=lambda r: 'C06.index',
                why='a matching component is not reported by get(T)')
